@@ -203,7 +203,13 @@ func (o *Obligation) variants() []scriptVariant {
 			if i >= nAx && i-nAx < len(root.assumeNotes) {
 				tag = root.assumeNotes[i-nAx]
 			}
-			if (tag == "" && engineOK(h)) || tag == "inv:"+o.Clause.Label || strings.HasPrefix(tag, "inv:shape") || strings.HasPrefix(tag, "inv:core") {
+			isDep := false
+			for _, d := range o.Clause.Deps {
+				if tag == "inv:"+d {
+					isDep = true
+				}
+			}
+			if (tag == "" && engineOK(h)) || tag == "inv:"+o.Clause.Label || isDep || strings.HasPrefix(tag, "inv:shape") || strings.HasPrefix(tag, "inv:core") {
 				self = append(self, h)
 				nsel++
 			}
@@ -390,41 +396,72 @@ func dischargeAll(obls []*Obligation, outDir string, timeoutS int, par int) {
 func runJob(j *solveJob, timeoutS int) {
 	o := j.o
 	total := 0.0
-	var notes []string
-	for i, v := range j.vars {
-		t := timeoutS
+	start := time.Now()
+	// stage 1: the first variant alone (quantifier-free hypotheses, or the only variant)
+	first := j.vars[0]
+	t1 := timeoutS
+	if !first.full && t1 > 3 {
+		t1 = 3
+	}
+	r, all := race(j.files[0], t1)
+	total += r.Time
+	if r.Status == "unsat" || (r.Status == "sat" && first.full) {
+		o.Status, o.Solver, o.Time, o.Model = r.Status, r.Solver+"/"+first.name, total, r.Output
+		o.SMTFile = j.files[0]
+		return
+	}
+	if len(j.vars) == 1 {
+		o.Status, o.Time = "unknown", total
+		var notes []string
+		for _, x := range all {
+			notes = append(notes, fmt.Sprintf("%s:%s", x.Solver, x.Status))
+		}
+		o.Solver = strings.Join(notes, ",")
+		return
+	}
+	// stage 2: all remaining variants concurrently, each with the full time limit; the variants with
+	// reduced hypotheses run on z3-new and cvc5, the full variant on all three solvers
+	type res struct {
+		r    solveResult
+		vi   int
+		full bool
+	}
+	ctx, cancel := context.WithCancel(context.Background())
+	defer cancel()
+	ch := make(chan res, 16)
+	n := 0
+	for i := 1; i < len(j.vars); i++ {
+		v := j.vars[i]
+		ss := solvers
 		if !v.full {
-			t = 3
-			if v.name == "rel" || v.name == "self" || v.name == "lite" {
-				t = 5
-			}
-			if t > timeoutS {
-				t = timeoutS
-			}
+			ss = solvers[:2]
 		}
-		r, all := race(j.files[i], t)
-		total += r.Time
-		if r.Status == "unsat" {
-			o.Status, o.Solver, o.Time, o.Model = "unsat", r.Solver+"/"+v.name, total, r.Output
-			o.SMTFile = j.files[i]
+		for _, sv := range ss {
+			n++
+			go func(i int, sv solverSpec, full bool) {
+				ch <- res{runSolver(ctx, sv, timeoutS, j.files[i]), i, full}
+			}(i, sv, v.full)
+		}
+	}
+	var notes []string
+	for k := 0; k < n; k++ {
+		x := <-ch
+		if x.r.Status == "unsat" || (x.r.Status == "sat" && x.full) {
+			o.Status, o.Solver, o.Model = x.r.Status, x.r.Solver+"/"+j.vars[x.vi].name, x.r.Output
+			o.Time = time.Since(start).Seconds()
+			o.SMTFile = j.files[x.vi]
 			return
 		}
-		if r.Status == "sat" && v.full {
-			o.Status, o.Solver, o.Time, o.Model = "sat", r.Solver, total, r.Output
-			return
-		}
-		if v.full {
-			for _, x := range all {
-				notes = append(notes, fmt.Sprintf("%s:%s", x.Solver, x.Status))
-				if x.Status == "error" {
-					o.Model += x.Solver + ": " + firstLines(x.Output, 3) + "\n"
-				}
+		if x.full {
+			notes = append(notes, fmt.Sprintf("%s:%s", x.r.Solver, x.r.Status))
+			if x.r.Status == "error" {
+				o.Model += x.r.Solver + ": " + firstLines(x.r.Output, 3) + "\n"
 			}
 		}
 	}
 	o.Status = "unknown"
 	o.Solver = strings.Join(notes, ",")
-	o.Time = total
+	o.Time = time.Since(start).Seconds()
 }
 
 // race runs all solvers on one file and returns the first decisive answer.
